@@ -296,6 +296,7 @@ type hijack struct {
 	tracing  bool
 	later    []string
 	asyncSent int
+	failAt, failKind, failed int
 	fakeSt   map[uint64]*kvrpcpb.CheckTxnStatusResponse
 	checks   map[uint64]int
 }
@@ -352,8 +353,8 @@ func (e *env) applyTopo1(ev topoEvent) {
 // SendRequestAsync (the EnableAsyncBatchGet path of snapshot_async.go): the same hooks, then the
 // asynchronous send of the wrapped client
 func (hj *hijack) SendRequestAsync(ctx context.Context, addr string, req *tikvrpc.Request, cb async.Callback[*tikvrpc.Response]) {
-	if resp := hj.pre(req); resp != nil {
-		cb.Schedule(resp, nil)
+	if resp, err := hj.pre(req); resp != nil || err != nil {
+		cb.Schedule(resp, err)
 		return
 	}
 	hj.mu.Lock()
@@ -363,18 +364,36 @@ func (hj *hijack) SendRequestAsync(ctx context.Context, addr string, req *tikvrp
 }
 
 func (hj *hijack) SendRequest(ctx context.Context, addr string, req *tikvrpc.Request, timeout time.Duration) (*tikvrpc.Response, error) {
-	if resp := hj.pre(req); resp != nil {
-		return resp, nil
+	if resp, err := hj.pre(req); resp != nil || err != nil {
+		return resp, err
 	}
 	return hj.send(ctx, addr, req, timeout)
 }
 
-// pre runs the scheduled topology changes / transaction finishes; a non-nil result is a faked answer
-func (hj *hijack) pre(req *tikvrpc.Request) *tikvrpc.Response {
+// pre runs the scheduled topology changes / transaction finishes / injected faults; a non-nil result
+// is a faked answer or the injected error
+func (hj *hijack) pre(req *tikvrpc.Request) (*tikvrpc.Response, error) {
 	e := hj.env
 	switch req.Type {
 	case tikvrpc.CmdGet, tikvrpc.CmdBatchGet, tikvrpc.CmdScan:
 		hj.mu.Lock()
+		// fault class: the failAt-th point read RPC from now on fails non-retryably
+		if hj.failAt > 0 && req.Type != tikvrpc.CmdScan {
+			hj.failAt--
+			if hj.failAt == 0 {
+				kind := hj.failKind
+				hj.failed++
+				hj.mu.Unlock()
+				switch {
+				case kind == 0:
+					return nil, context.Canceled // cancelled RPC
+				case req.Type == tikvrpc.CmdGet:
+					return &tikvrpc.Response{Resp: &kvrpcpb.GetResponse{Error: &kvrpcpb.KeyError{Abort: "injected abort"}}}, nil
+				default:
+					return &tikvrpc.Response{Resp: &kvrpcpb.BatchGetResponse{Error: &kvrpcpb.KeyError{Abort: "injected abort"}}}, nil
+				}
+			}
+		}
 		hj.readRPCs++
 		n := hj.readRPCs
 		var todo []topoEvent
@@ -393,7 +412,7 @@ func (hj *hijack) pre(req *tikvrpc.Request) *tikvrpc.Response {
 		if fake, ok := hj.fakeSt[r.LockTs]; ok {
 			hj.mu.Unlock()
 			cp := *fake
-			return &tikvrpc.Response{Resp: &cp}
+			return &tikvrpc.Response{Resp: &cp}, nil
 		}
 		hj.checks[r.LockTs]++
 		n := hj.checks[r.LockTs]
@@ -412,7 +431,14 @@ func (hj *hijack) pre(req *tikvrpc.Request) *tikvrpc.Response {
 			}
 		}
 	}
-	return nil
+	return nil, nil
+}
+
+// arm makes the n-th Get/BatchGet RPC from now fail (kind 0: context.Canceled, 1: fabricated abort)
+func (hj *hijack) arm(n, kind int) {
+	hj.mu.Lock()
+	hj.failAt, hj.failKind = n, kind
+	hj.mu.Unlock()
 }
 
 func (hj *hijack) send(ctx context.Context, addr string, req *tikvrpc.Request, timeout time.Duration) (*tikvrpc.Response, error) {
@@ -580,6 +606,8 @@ func (e *env) truthLines() []string {
 func errKind(err error) string {
 	s := err.Error()
 	switch {
+	case strings.Contains(s, "context canceled") || strings.Contains(s, "injected abort"):
+		return "injected"
 	case strings.Contains(s, "MaxSleep") || strings.Contains(s, "backoff"):
 		return "backoff-exhausted"
 	}
@@ -881,13 +909,37 @@ func (e *env) reads(tier string) []string {
 	}
 	bgetL("moved", s1, h.ts2, allKeys)
 	e.scanCase(&lines, "moved-fresh", h.ts2, nil, nil, batchSizes[r.Intn(4)], false, false, false)
-	// a cache program: gets / batch gets / SetSnapshotTS interleaved on one snapshot
+	// fault class: the i-th point-read RPC of a BatchGet / Get fails non-retryably (cancelled RPC or a
+	// fabricated abort) while other regions answered; the SAME snapshot is then read again through every
+	// path: a failed call must not leave anything behind
+	for round := 0; round < 2; round++ {
+		sf := e.store.GetSnapshot(h.ts1)
+		if round == 1 { // partly warm before the fault
+			for _, k := range pick(r, 1+r.Intn(3), allKeys) {
+				getL("fault-warmup", sf, h.ts1, k)
+			}
+		}
+		e.hj.arm(1+r.Intn(3), r.Intn(2))
+		if r.Intn(4) == 0 {
+			getL("fault", sf, h.ts1, allKeys[r.Intn(len(allKeys))])
+		} else {
+			bgetL("fault", sf, h.ts1, allKeys)
+		}
+		e.hj.arm(0, 0)
+		for _, k := range allKeys {
+			getL("after-fault", sf, h.ts1, k)
+		}
+		bgetL("after-fault", sf, h.ts1, allKeys)
+		bgetL("after-fault-sub", sf, h.ts1, pick(r, 1+r.Intn(len(allKeys)), allKeys))
+	}
+	e.scanCase(&lines, "after-fault", h.ts1, nil, nil, batchSizes[r.Intn(4)], false, false, false)
+	// a cache program: gets / batch gets / SetSnapshotTS / failing calls interleaved on one snapshot
 	{
 		sc := e.store.GetSnapshot(h.ts1)
 		var ops, res []string
 		n := 6 + r.Intn(8)
 		for i := 0; i < n; i++ {
-			switch x := r.Intn(10); {
+			switch x := r.Intn(12); {
 			case x < 5:
 				k := allKeys[r.Intn(len(allKeys))]
 				ops = append(ops, "g:"+hx(k))
@@ -896,6 +948,23 @@ func (e *env) reads(tier string) []string {
 				ks := pick(r, 1+r.Intn(4), allKeys)
 				ops = append(ops, "b:"+hxs(ks))
 				res = append(res, doBatchGet(sc, ks))
+			case x >= 10:
+				// a call with an injected fault; if no RPC was needed (all cached) it is an ordinary call
+				e.hj.arm(1+r.Intn(2), r.Intn(2))
+				var op, rr string
+				if r.Intn(3) == 0 {
+					k := allKeys[r.Intn(len(allKeys))]
+					op, rr = "g:"+hx(k), doGet(sc, k)
+				} else {
+					ks := pick(r, 2+r.Intn(5), allKeys)
+					op, rr = "b:"+hxs(ks), doBatchGet(sc, ks)
+				}
+				e.hj.arm(0, 0)
+				if rr == "err:injected" {
+					op = strings.ToUpper(op[:1]) + op[1:]
+				}
+				ops = append(ops, op)
+				res = append(res, rr)
 			default:
 				ts := h.ts1
 				if r.Intn(2) == 0 {
